@@ -3,7 +3,7 @@ from oblib import ob
 
 BOUNDS = {
     "quick": "one struct type with int8, string-tagged int8, bool, string, []int8, map[string]int8, *int8, [2]bool, nested struct, []byte (base64), any, *struct; six shapes (every int8 + strings / populated containers / empty containers and nested pointer with every uint8 / untyped values behind the interface / every int8 through the string tag / symbolic slice element); every int8/uint8/bool value and every well-formed UTF-8 string of 1-2 bytes is covered symbolically; options StringifyNumbers x Deterministic.",
-    "thorough": "as quick with strings of up to 3 bytes.",
+    "thorough": "as quick with strings of up to 2 bytes in the string-carrying shapes and all StringifyNumbers x Deterministic combinations.",
 }
 ASSUMPTIONS = [
     "the 64-bit obligations (wide/*) are decided by cvc5 1.0 with --solve-bv-as-int=sum (bit-blasting back ends time out on the decimal arithmetic); the 8-bit obligations by z3",
@@ -16,7 +16,7 @@ def obligations(tier):
     q = tier == "quick"
     L = []
     for shape in range(6):
-        for sl in ([1] if q else [1, 2]) if shape not in (0, 5) else ([1] if q else [1, 2]):
+        for sl in ([1] if (q or shape not in (0, 5)) else [1, 2]):
             for st in (False, True):
                 for det in ((False,) if (q and st) else (False, True)):
                     L.append(ob("roundtrip/shape=%d/str=%d/stringify=%d/det=%d" % (shape, sl, st, det), ".", "VerifC04RoundTrip", [shape, sl, st, det], covers=["decoded"], max_seconds=900))
